@@ -40,7 +40,7 @@ def finalize(R, I, hops):
                                    ('refuses this chain' if exp_root is None else f"ends at version {exp_root['version']}") + f"; requests {[x[0] for x in rc['requests']]}", sc)
                 reported = True
             elif d:
-                R.inconclusive.append('C02 witness did not reproduce natively: ' + '; '.join(d))
+                R.inconclusive.append('C02 witness did not reproduce natively: ' + '; '.join(d) + ' scenario=' + R.save_unreproduced(sc, pred, real))
     # differential scenarios: always run (encoder validation); deviations from the reference are violations
     for desc, sc in differential(R, sums, 1, max_models=(8 if R.tier == 'quick' else 24), label='C02 differential'):
         if not reported:
